@@ -57,7 +57,7 @@ def check_all(ctx, facts):
     prov = Prov(facts)
     with open(os.path.join(CORPUS, "shapes.json")) as fh:
         shapes = json.load(fh)
-    ctx.floor("R1", "trace_shapes", len(shapes), 58, "corpus shapes")
+    ctx.floor("R1", "trace_shapes", len(shapes), 59, "corpus shapes")
     combos = {(s["template"], s["name_kind"], tuple(p[0] for p in s["props"])) for s in shapes}
     ctx.analysed.setdefault("X", {})["template_x_name_x_props_combinations"] = len(combos)
     n_checked = 0
@@ -101,8 +101,15 @@ def check_all(ctx, facts):
                          "wrapper %s inner %s" % (wrap_fn, [f.path for f in inner]), extra="shape")
                 continue
             inner_marks = marker_calls([f for f in tbodies if f.path == body_fn.path or f.path.startswith(body_fn.path + "::")])
-            ctx.check(inner_marks == pm, "R2", tp, tf.span, "all body calls are inside the inner `async move` block (nothing of the body runs outside the span)",
-                      "", "inner block calls %s vs twin %s" % (inner_marks, pm), extra="inner-calls")
+            if sh.get("prefix_statements"):
+                # statements written before the pinned future legitimately run before the span exists
+                ptw = [f for f in pbodies if f.j.get("coroutine")]
+                twin_inner = marker_calls([f for f in pbodies if ptw and (f.path == ptw[0].path or f.path.startswith(ptw[0].path + "::"))])
+                ctx.check(inner_marks == twin_inner, "R2", tp, tf.span, "the calls of the async block are the ones of the twin's async block", "",
+                          "inner block calls %s vs twin's block %s" % (inner_marks, twin_inner), extra="inner-calls")
+            else:
+                ctx.check(inner_marks == pm, "R2", tp, tf.span, "all body calls are inside the inner `async move` block (nothing of the body runs outside the span)",
+                          "", "inner block calls %s vs twin %s" % (inner_marks, pm), extra="inner-calls")
         # ---------------- R3 wrapper shape
         no_catch = not any(f.calls_re(r"panic::catch_unwind$|panicking::try$") for f in tbodies)
         ctx.check(no_catch, "R3", tp, tf.span, "the wrapper never catches unwinding (panics propagate as in the plain function)", "", "catch_unwind present", extra="catch")
@@ -256,7 +263,7 @@ def check_all(ctx, facts):
                       "the with_properties closure builds the configured keys in order; literal values are constants ({{ }} unescaped), "
                       "formatted values are format!(..) over the function's arguments", detail,
                       "%s (expected %s)" % (detail, want), extra="props")
-    ctx.floor("R1", "trace_shapes", n_checked, 58, "corpus shapes found in the expanded program")
+    ctx.floor("R1", "trace_shapes", n_checked, 59, "corpus shapes found in the expanded program")
 
 
 def macro_inventory(ctx, facts_e):
